@@ -438,3 +438,21 @@ func refTypeDeep(t types.Type) bool {
 	}
 	return false
 }
+
+// crossCallWrites lists the accesses in funcs that leave state behind in package-level variable g for a later call:
+// plain writes, mutation through an alias, synchronised writes (sync.Map Store, writes under a mutex) and atomic
+// Store/Swap/CompareAndSwap. Monotone atomic increments (fresh-name counters) are not listed.
+func crossCallWrites(p *Prog, ms *mutationSummary, g *ssa.Global, funcs []*ssa.Function) []string {
+	var w []string
+	for _, a := range accessesOf(p, ms, g, funcs) {
+		switch {
+		case a.Kind == "write", a.Kind == "alias-mutation", a.Kind == "sync-write":
+		case a.Kind == "atomic" && (strings.Contains(a.Detail, ".Store") || strings.Contains(a.Detail, ".Swap") || strings.Contains(a.Detail, ".CompareAndSwap")):
+		default:
+			continue
+		}
+		w = append(w, fmt.Sprintf("%s (%s: %s) at %s", FuncKey(a.Fn), a.Kind, a.Detail, p.Pos(a.Instr.Pos())))
+	}
+	sort.Strings(w)
+	return w
+}
